@@ -441,16 +441,34 @@ def _cache_rule(ctx: Ctx, rs: RuleSet, rule: str, q: str, ws, loc: str):
     # stored value: single assignment from a call whose arguments cover the key
     val_ok = False
     if isinstance(n.value, ast.Name):
-      defs = [s for s in walk_function(f.node) if isinstance(s, ast.Assign) and
-              any(isinstance(x, ast.Name) and x.id == n.value.id
-                  for x in s.targets)]
-      for d in defs:
-        if isinstance(d.value, ast.Call):
-          arg_names = {x.id for a in list(d.value.args) + [
-              k.value for k in d.value.keywords] for x in ast.walk(a)
-                       if isinstance(x, ast.Name)}
-          if key_names <= arg_names and arg_names <= set(f.params):
-            val_ok = True
+      # what the stored value is computed from: through its definitions and
+      # the locals they read, down to parameters
+      locals_ = f.local_names() - set(f.params)
+      seen, leaves, calls, work = set(), set(), 0, [n.value.id]
+      while work:
+        v = work.pop()
+        if v in seen:
+          continue
+        seen.add(v)
+        for d in walk_function(f.node):
+          tg = []
+          if isinstance(d, ast.Assign):
+            tg = d.targets
+          elif isinstance(d, (ast.AnnAssign, ast.AugAssign)):
+            tg = [d.target]
+          if not any(isinstance(x, ast.Name) and x.id == v
+                     for t_ in tg for x in ast.walk(t_)):
+            continue
+          if d.value is None:
+            continue
+          calls += sum(1 for x in ast.walk(d.value) if isinstance(x, ast.Call))
+          for x in ast.walk(d.value):
+            if isinstance(x, ast.Name) and isinstance(x.ctx, ast.Load):
+              if x.id in locals_:
+                work.append(x.id)
+              elif x.id in f.params:
+                leaves.add(x.id)
+      val_ok = calls >= 1 and key_names <= leaves and leaves <= set(f.params)
     ok = ok and same_key and from_params and val_ok
     detail.append(f'{fq}: store key `{key}`, lookups {sorted(set(lookups))}, '
                   f'key from parameters={from_params}, value computed from '
